@@ -5,6 +5,17 @@ pid = sys.argv[1]; n = sys.argv[2] if len(sys.argv) > 2 else "1"
 for l in open('/verif/properties.jsonl'):
     p = json.loads(l)
     if p['id'] == pid: break
+import os, re
+avoid = ""
+if int(n) >= 2:
+    prev = []
+    for k in range(1, int(n)):
+        f = f"/tmp/seed/{pid}-{k}/patch.diff"
+        if os.path.exists(f):
+            for m in re.finditer(r"^@@ .* @@ (.*)$|^\+\+\+ b/(.*)$", open(f).read(), re.M):
+                prev.append((m.group(2) or m.group(1) or "").strip())
+    if prev:
+        avoid = "\nAn earlier seeded defect for this property already touched: " + "; ".join(dict.fromkeys(x for x in prev if x)) + ". Choose a DIFFERENT function or mechanism (another clause of the statement, another anchored file, another input shape or interleaving) so that the two defects are independent.\n"
 wt = f"/tmp/seedwt/{pid}-{n}"
 out = f"/tmp/seed/{pid}-{n}"
 print(f"""You are helping evaluate a verification effort on the Go repository ElrondNetwork/elrond-go. Your job is to write ONE realistic code change (a "seeded defect") that breaks a stated semantic property of the code while the code still compiles and the repository's existing tests still pass, plus a demonstration that the property is broken.
@@ -20,6 +31,7 @@ The property (id {p['id']}: {p['title']}):
   Code it is anchored in: {', '.join(p['anchors']['files'])}
   Mechanisms meant to make it hold: {'; '.join(m['name']+' ('+m.get('where','')+')' for m in p['anchors']['mechanism'])}
 
+{avoid}
 Requirements for the change:
  1. It modifies non-test Go source of the repository (a few lines, the kind of slip a real developer could make: an off-by-one at a boundary, a missing copy or reset, two updates in the wrong order, a dropped branch for a rare input shape, a lock released too early, a stale cache entry, a wrong variable of the same type...).
  2. It breaks the property above, but only under something SPECIFIC: a particular interleaving, a multi-step sequence of operations, an unusual input shape or boundary value, a particular configuration, or two cooperating sites that each look fine alone. It must NOT be something ordinary use exposes at once, and the repository's own tests must not notice: the code must build (`go build ./...` in the touched packages and `go vet` not required) and `go test -count=1 -p 2 ./<every package you touched and its direct test-dependents you can identify>/...` must pass with the change. Run them and record the commands and results. If a test fails, choose a different change.
